@@ -10,7 +10,7 @@ from lib import vlib
 from lib.vlib import Infra
 
 SPEC = os.path.join(vlib.SPECS, "ledger")
-SIZE = {"quick": (6, 8), "thorough": (120, 14)}   # histories, valid blocks per history
+SIZE = {"quick": (6, 8), "thorough": (400, 16)}   # histories, valid blocks per history
 
 COIN_MUTS = {"coins-created", "coins-destroyed", "zero-coin-output"}
 SPEND_MUTS = {"double-spend-in-block", "replayed-spend", "unknown-input", "dup-input"}
